@@ -376,11 +376,34 @@ func runC12(c *ctx, r *Report) error {
 	if !c.quick {
 		nV = 6000
 	}
-	return visitTie(c, r, nV, false, func(cs Case) (string, string) {
+	if err := visitTie(c, r, nV, false, func(cs Case) (string, string) {
 		names := []string{"context-not-allowed", "special-func-not-allowed"}
 		if a, b := visitCodes(cs.Impl, names...), visitCodes(cs.Model, names...); a != b {
 			return "workflow-position-uses-wrong-table-row", "the 'not allowed here' reports at the probes (" + a + ") differ from those of the table row that belongs to each position (" + b + ")"
 		}
 		return "", ""
-	})
+	}); err != nil {
+		return err
+	}
+	perE := 6
+	if !c.quick {
+		perE = 200
+	}
+	return exStandard(c, r, func(cs Case) (string, string) {
+		pick := func(s string) string {
+			var out []string
+			for _, d := range strings.Split(s, ";") {
+				for _, n := range []string{"context-not-allowed", "special-func-not-allowed"} {
+					if strings.HasPrefix(d, n+"(") {
+						out = append(out, d)
+					}
+				}
+			}
+			return strings.Join(out, ";")
+		}
+		if pick(cs.Impl) != pick(cs.Model) {
+			return "availability-reports-differ-from-rule-model", "the 'not allowed here' reports of the real rule differ from the model of rule_expression.go (workflow key of each string + availability table) on this source"
+		}
+		return "", ""
+	}, perE, true, map[bool]int{true: 2500, false: 0}[c.quick])
 }
